@@ -375,3 +375,80 @@ def kindkeep(pid):
         res.notes.append("expected count on the reference tree: 0 (no backend error is re-wrapped); the kept seeded change C18-3 is the positive example exercised by the thorough tier")
         return res
     return run
+
+
+def narrow_in(pid, modules, what):
+    """R-NARROW(<pid>): no truncating integer cast in the given modules (same test as R-NARROW, other scope):
+    in the name functions a `u16 as u8` / `char as u8` folds distinct code units onto one another."""
+    def run(ctx):
+        res = RuleResult("R-NARROW(%s)" % pid, "no integer cast in %s narrows a value that interval evaluation cannot show to fit" % what)
+        n = 0
+        for f in ctx.fx.fns.values():
+            if not any(f.path.startswith(m) for m in modules):
+                continue
+            for bb, blk in enumerate(f.blocks):
+                if blk["cleanup"]:
+                    continue
+                for st in blk["stmts"]:
+                    if st["s"] == "assign" and st["rv"]["r"] == "cast" and "IntToInt" in st["rv"]["kind"] and not st["span"].get("macros"):
+                        o = st["rv"]["op"]
+                        src = None
+                        if o["k"] in ("copy", "move"):
+                            src = o["place"].get("ty") if o["place"]["proj"] else f.locals[o["place"]["local"]]["s"]
+                        elif o["k"] == "const":
+                            src = o.get("ty")
+                        dst = st["rv"]["ty"]
+                        sb, db = INT_BITS.get(src), INT_BITS.get(dst)
+                        if src == "char":
+                            sb = 21
+                        if sb is None or db is None:
+                            continue
+                        n += 1
+                        if sb <= db:
+                            res.ok({"function": f.path, "cast": "%s -> %s" % (src, dst)})
+                            continue
+                        from bounds import MirBounds
+                        ub = MirBounds(ctx, f).operand(o)
+                        if ub is not None and ub < (1 << db):
+                            res.ok({"function": f.path, "cast": "%s -> %s" % (src, dst), "fits_because": "operand bounded by %d" % ub}, nontrivial=True)
+                        else:
+                            res.fail(Finding(res.rule, "R-NARROW(%s)/%s/narrowing-cast/%s-to-%s" % (pid, f.path, src, dst), "integer cast from %s to %s truncates in %s: different code units / characters become equal after the cast (a valid name is then treated like one containing a forbidden character, or two names compare equal)" % (src, dst, what), f, st["span"]))
+        res.floor("integer casts", n, ctx.table("floors").get("narrow_" + pid, 0))
+        return res
+    return run
+
+
+def trunc(pid):
+    """R-TRUNC: a file that is opened in order to CREATE a compound file in it (fs::OpenOptions with create(true),
+    then handed to the crate's creation code, which writes from offset 0 and assumes nothing follows) is opened with
+    truncate(true) or create_new(true): otherwise the result depends on what an earlier run left at that path."""
+    import re as _re
+    from prov import Prov as _Prov
+
+    def run(ctx):
+        res = RuleResult("R-TRUNC(%s)" % pid, "every std::fs::OpenOptions chain with create(true) whose file is passed to the creation code also has truncate(true) (or create_new(true))")
+        n = 0
+        for f in ctx.fx.fns.values():
+            v = view(ctx, f)
+            pr = None
+            for bb, c in sorted(v.calls.items()):
+                if not c.name.endswith("fs::OpenOptions::open"):
+                    continue
+                pr = pr or _Prov(f)
+                chain = pr.operand(c.term["args"][0]) if c.term["args"] else ""
+                if "OpenOptions::create(" not in chain and "OpenOptions::create_new(" not in chain:
+                    continue
+                # is the opened file used to create (not to open) a compound file?
+                creates = any(_re.search(r"(create_with|create_with_version|create_with_version_and_options|CompoundFile::<F>::create)$", c2.name) for c2 in v.calls.values())
+                if not creates:
+                    continue
+                n += 1
+                ok = bool(_re.search(r"OpenOptions::truncate\(.*,const:1\)", chain)) or "OpenOptions::create_new(" in chain
+                key = "R-TRUNC/%s" % f.path
+                if ok:
+                    res.ok({"function": f.path, "line": c.line, "chain": "create(true) + truncate(true)"}, nontrivial=True)
+                else:
+                    res.fail(Finding(res.rule, key + "/create-without-truncate", "the file is opened with create(true) but without truncate(true) and then used to create a compound file: whatever an existing, longer file holds beyond the newly written sectors stays in the result, so the same history gives different bytes on a real file than in memory and from one run to the next", f, c.term["span"]))
+        res.floor("create-mode opens", n, ctx.table("floors").get("trunc_sites", 0))
+        return res
+    return run
